@@ -58,3 +58,34 @@ package text
 //@   property C08
 //@   modifies si.isDirty
 //@   ensures result == old(si.isDirty) && !si.isDirty
+
+// ---- posting and document-record maintenance (property C05) ----
+// One analysed document is folded into the two caches: D = docCache (document records),
+// S = setCache (postings). "exists" is what docCache.Get said (call 1 of Get in source order).
+//@ func (*indexText).processAnalysedDoc
+//@   property C05
+//@   safety -overflow
+//@   requires index.setCache != nil && index.docCache != nil
+//@   requires unheld(index.setCache.itemsMu) && index.setCache.items != nil && forallv(k string, contains(index.setCache.items, k) ==> index.setCache.items[k] != nil && index.setCache.items[k].value != nil && index.setCache.items[k].value.set != nil)
+//@   requires unheld(index.docCache.itemsMu) && index.docCache.items != nil && forallv(k uint64, contains(index.docCache.items, k) ==> index.docCache.items[k] != nil)
+//@   after Get assume err != nil || (value != nil && value.set != nil)
+//@   ensures callres(Get, 1, 1) == cache.ErrNotFound && ad.Length == 0 ==> result == nil && index.numDocs == old(index.numDocs) && ncalls(Put) == 0 && ncalls(Delete) == 0
+//@   ensures result == nil && callres(Get, 1, 1) == cache.ErrNotFound && ad.Length > 0 ==> index.numDocs == old(index.numDocs) + 1
+//@   ensures result == nil && callres(Get, 1, 1) == cache.ErrNotFound && ad.Length > 0 ==> contains(index.docCache.items, ad.Id) && !index.docCache.items[ad.Id].IsDeleted && index.docCache.items[ad.Id].IsDirty && index.docCache.items[ad.Id].value.Length == ad.Length
+//@   ensures result == nil && callres(Get, 1, 1) == cache.ErrNotFound && ad.Length > 0 ==> forallv(t string, contains(index.docCache.items[ad.Id].value.Terms, t) == contains(ad.Frequencies, t)) && forallv(t string, contains(ad.Frequencies, t) ==> index.docCache.items[ad.Id].value.Terms[t].Frequency == ad.Frequencies[t])
+//@   ensures result == nil && callres(Get, 1, 1) == cache.ErrNotFound && ad.Length > 0 ==> forallv(t string, contains(ad.Frequencies, t) ==> contains(index.setCache.items, t) && bhas(index.setCache.items[t].value.set, ad.Id))
+//@   ensures result == nil && callres(Get, 1, 1) == nil && ad.Length == 0 ==> index.numDocs == old(index.numDocs) - 1 && contains(index.docCache.items, ad.Id) && index.docCache.items[ad.Id].IsDeleted
+//@   ensures result == nil && callres(Get, 1, 1) == nil && ad.Length == 0 ==> forallv(t string, contains(callres(Get, 1, 0).Terms, t) ==> contains(index.setCache.items, t) && !bhas(index.setCache.items[t].value.set, ad.Id))
+//@   ensures result == nil && callres(Get, 1, 1) == nil && ad.Length > 0 ==> index.numDocs == old(index.numDocs) && contains(index.docCache.items, ad.Id) && !index.docCache.items[ad.Id].IsDeleted && index.docCache.items[ad.Id].IsDirty && index.docCache.items[ad.Id].value.Length == ad.Length
+//@   ensures result == nil && callres(Get, 1, 1) == nil && ad.Length > 0 ==> forallv(t string, contains(index.docCache.items[ad.Id].value.Terms, t) == contains(ad.Frequencies, t)) && forallv(t string, contains(ad.Frequencies, t) ==> index.docCache.items[ad.Id].value.Terms[t].Frequency == ad.Frequencies[t])
+//@   ensures result == nil && callres(Get, 1, 1) == nil && ad.Length > 0 ==> forallv(t string, contains(ad.Frequencies, t) && !contains(callres(Get, 1, 0).Terms, t) ==> contains(index.setCache.items, t) && bhas(index.setCache.items[t].value.set, ad.Id))
+//@   ensures callres(Get, 1, 1) != nil && callres(Get, 1, 1) != cache.ErrNotFound ==> result != nil
+//@   loop 1 invariant index.setCache != nil && unheld(index.setCache.itemsMu) && index.setCache.items != nil && forallv(k string, contains(index.setCache.items, k) ==> index.setCache.items[k] != nil && index.setCache.items[k].value != nil && index.setCache.items[k].value.set != nil)
+//@   loop 1 invariant forallv(t string, visited(t) ==> contains(ad.Frequencies, t) && contains(terms, t) && terms[t].Frequency == ad.Frequencies[t]) && forallv(t string, contains(terms, t) ==> visited(t)) && fresh(terms)
+//@   loop 1 invariant forallv(t string, visited(t) ==> contains(index.setCache.items, t) && bhas(index.setCache.items[t].value.set, ad.Id))
+//@   loop 2 invariant index.setCache != nil && unheld(index.setCache.itemsMu) && index.setCache.items != nil && forallv(k string, contains(index.setCache.items, k) ==> index.setCache.items[k] != nil && index.setCache.items[k].value != nil && index.setCache.items[k].value.set != nil)
+//@   loop 2 invariant forallv(t string, visited(t) ==> contains(index.setCache.items, t) && !bhas(index.setCache.items[t].value.set, ad.Id))
+//@   loop 3 invariant index.setCache != nil && unheld(index.setCache.itemsMu) && index.setCache.items != nil && forallv(k string, contains(index.setCache.items, k) ==> index.setCache.items[k] != nil && index.setCache.items[k].value != nil && index.setCache.items[k].value.set != nil)
+//@   loop 4 invariant index.setCache != nil && unheld(index.setCache.itemsMu) && index.setCache.items != nil && forallv(k string, contains(index.setCache.items, k) ==> index.setCache.items[k] != nil && index.setCache.items[k].value != nil && index.setCache.items[k].value.set != nil)
+//@   loop 4 invariant forallv(t string, visited(t) ==> contains(ad.Frequencies, t) && contains(terms, t) && terms[t].Frequency == ad.Frequencies[t]) && forallv(t string, contains(terms, t) ==> visited(t)) && fresh(terms)
+//@   loop 4 invariant forallv(t string, visited(t) && !contains(docItem.Terms, t) ==> contains(index.setCache.items, t) && bhas(index.setCache.items[t].value.set, ad.Id))
